@@ -31,4 +31,6 @@ def check(ctx, rep):
     _rx13.rx_13(ctx, rep)       # the lexical patterns are blind to the spelling of line breaks
     from ..rules import dim as _pos1
     _pos1.pos_1(ctx, rep)       # an offset is never recovered by searching for the text
+    from ..rules import tok as _tok13
+    _tok13.tok_13(ctx, rep)     # the indentation of a logical line is decided once
     rep.note('Not decided: true positions.')
